@@ -337,6 +337,8 @@ func c06Run(c *Ctx) {
 			Lines(K["var"]+" ev = 0, od = 0;", For(Var("rd", "1"), "rd <= 2", "rd = rd + 1", "{ ev = od = 0; "+For(Var("i", "1"), "i <= 4", "i = i + 1", "{ "+IfElse("i % 2 == 0", "{ ev = ev + i * rd; }", "{ od = od + i * rd; }")+" }")+" "+Print("ev - od")+" }")),
 			Lines(Var("cnt", "0"), Fun("nxt", "", " "+Ret("cnt = cnt + 1")+" "), Print("nxt() * 10"), Print("nxt() * 10"), Fun("twice", "", " "+Var("loc", "0")+" { { loc = cnt = cnt + 5; } } "+Ret("loc + cnt")+" "), Print("twice()")),
 			Lines(Var("o", "{a: nil}"), Print("o.a"), "o.b = o.a;", Print("o.b == nil"), Fun("nothing", "", " "+Ret("")+" "), "o.c = nothing();", Print("o.c"), Print("[nil][0]"), Var("un", "nil"), "un = nothing();", Print("un")),
+			Lines(Var("p", "{\u09ac\u09df\u09b8: 30, \u09ac\u09cd\u09af\u09df: 5, nm: 1}"), Print("p.\u09ac\u09df\u09b8"), BI("delete", "p", "\"\u09ac\u09df\u09b8\"")+";", Print(BI("keys", "p")), "p.\u09a2\u09bc\u09be\u0995\u09be = 2;", BI("delete", "p", "\"\u09a2\u09bc\u09be\u0995\u09be\"")+";", Print("p")),
+			Lines(Var("par", "{nm: \"p\", kids: []}"), Var("kid", "{nm: \"k\", up: par}"), "par.kids = [kid];", Print("[par]"), Print("{tree: par}"), Var("ra", "{v: 1}"), Var("rb", "{v: 2, nx: ra}"), "ra.nx = rb;", Print("[ra, rb]"), Print(BI("append", "[0]", "ra")), Print("[nil, [nil], {k: nil}]"), Var("o", "{self: nil, p: \"[\"}"), "o.self = o;", Print("o"), Print("[\"\", \"a[\", \"b\"]")),
 			Lines(Var("m", "7"), Print("m % 0.5"), Print("1 % 0.1"), Print("m / 0.0000000001"), Print("(10 ** 309) % 5"), Print("5 ^ (0 - 1)"), Print("m ^ ~0"), Print("m % (10 ** 309)")),
 		}
 		for _, b := range bodies {
